@@ -121,6 +121,29 @@ pub mod probe {
         pub fn crash(_env: Env) {
             panic!("probe crash")
         }
+        /// The probe can be told to name an address as the holder of every role a caller might ask
+        /// a target about; a forwarder must not take the target's word for who may call it.
+        pub fn set_boss(env: Env, boss: Address) {
+            env.storage().instance().set(&Symbol::new(&env, "boss"), &boss);
+        }
+        pub fn owner(env: Env) -> Address {
+            env.storage().instance().get(&Symbol::new(&env, "boss")).unwrap()
+        }
+        pub fn operator(env: Env) -> Address {
+            Self::owner(env)
+        }
+        pub fn admin(env: Env) -> Address {
+            Self::owner(env)
+        }
+        pub fn gas_collector(env: Env) -> Address {
+            Self::owner(env)
+        }
+        pub fn is_operator(env: Env, account: Address) -> bool {
+            env.storage().instance().get::<_, Address>(&Symbol::new(&env, "boss")) == Some(account)
+        }
+        pub fn is_minter(env: Env, account: Address) -> bool {
+            Self::is_operator(env, account)
+        }
     }
 }
 
